@@ -38,8 +38,10 @@ var waitPrefixes = []string{"chan receive", "chan send", "select", "IO wait", "s
 // quiesce returns once every goroutine except the caller is blocked (channel, select, cond, mutex ...): nothing
 // in the process can make progress until the harness acts (timers of the server are hours away).  The decision is
 // taken on a stop-the-world snapshot of all goroutine states (runtime.Stack), never on elapsed time.
+var stackBuf = make([]byte, 1<<20)
+
 func quiesce() string {
-	buf := make([]byte, 1<<20)
+	buf := stackBuf
 	deadline := time.Now().Add(15 * time.Second)
 	for spins := 0; ; spins++ {
 		runtime.Gosched()
@@ -324,10 +326,6 @@ func execSv(toks []string) string {
 		closed := cv.closed
 		cv.mu.Unlock()
 		out = append(out, render(got))
-		if closed {
-			out = append(out, "closed")
-			break
-		}
 		goaway := false
 		for _, g := range got {
 			if _, ok := g.(*spdy.GoAwayFrame); ok {
@@ -336,6 +334,10 @@ func execSv(toks []string) string {
 		}
 		if goaway {
 			out = append(out, "stop") // after an error GOAWAY the server sends nothing more and closes 250 ms later
+			break
+		}
+		if closed {
+			out = append(out, "closed")
 			break
 		}
 	}
@@ -398,7 +400,7 @@ func gen(r *vh.Rand) string {
 		return fmt.Sprintf("ft %d %d %d", i32(r), i32(r), i32(r))
 	}
 	maxS := r.Range(1, 4)
-	n := r.Range(1, 9)
+	n := r.Range(1, 12)
 	p := []string{"sv", strconv.Itoa(maxS)}
 	next := 1
 	var ids []int
@@ -409,7 +411,11 @@ func gen(r *vh.Rand) string {
 		return pick(r, 0, 1, 2, 3, 5, 7, 9, 11)
 	}
 	for i := 0; i < n; i++ {
-		switch r.Intn(12) {
+		k := r.Intn(18)
+		if i == 0 && r.Chance(3, 4) {
+			k = 0
+		}
+		switch k {
 		case 0, 1, 2, 3:
 			id := next
 			switch r.Intn(8) {
@@ -426,10 +432,10 @@ func gen(r *vh.Rand) string {
 			}
 			p = append(p, fmt.Sprintf("S%d,%d", id, r.Intn(3)/2))
 		case 4, 5, 6, 7:
-			l := pick(r, 0, 1, 100, 16384, 32768, 65535, 65536, 65537, 40000)
+			l := pick(r, 0, 1, 100, 16384, 32768, 65535, 65536, 65537, 40000, 7)
 			p = append(p, fmt.Sprintf("D%d,%d,%d", pickID(), l, r.Intn(4)/3))
 		case 8:
-			d := pick(r, 0, 1, 65536, 2147418111, 2147418112, 2147483647, 2147483648+5)
+			d := pick(r, 0, 1, 65536, 2147418111, 2147418112, 2147483647, 2147483648+5, 10, 20000)
 			id := pickID()
 			if r.Chance(1, 3) {
 				id = 0
@@ -438,9 +444,15 @@ func gen(r *vh.Rand) string {
 		case 9:
 			p = append(p, fmt.Sprintf("R%d,%d", pickID(), pick(r, 1, 5, 8)))
 		case 10:
-			p = append(p, fmt.Sprintf("I%d", pick(r, 0, 1, 65536, 65535, 100000, 2147483647, 2147483648, 4294967295)))
-		default:
+			p = append(p, fmt.Sprintf("I%d", pick(r, 0, 1, 65536, 65535, 100000, 2147483647, 2147483648, 4294967295, 10, 30000)))
+		case 11:
 			p = append(p, fmt.Sprintf("P%d", pick(r, 0, 1, 2, 3, 7)))
+		case 12, 13:
+			p = append(p, fmt.Sprintf("r%d,%d", pickID(), pick(r, 0, 1, 7, 100, 16384, 40000, 65536, 131072)))
+		case 14, 15, 16:
+			p = append(p, fmt.Sprintf("w%d,%d", pickID(), pick(r, 0, 1, 10, 4096, 4097, 16384, 16385, 40000, 65536, 70000, 131072)))
+		default:
+			p = append(p, fmt.Sprintf("f%d", pickID()))
 		}
 	}
 	return strings.Join(p, " ")
